@@ -59,6 +59,9 @@ def solve(assertions, timeout_ms=10000, want_model=True, other_backends=True, se
     if not other_backends:
         return Result('unknown', 'z3', time.time() - t0, detail=s.reason_unknown())
     smt = _smt2(assertions)
+    if os.environ.get('PYVC_DUMP'):
+        with open(os.path.join(os.environ['PYVC_DUMP'], f'q{int(time.time()*1000)}.smt2'), 'w') as f:
+            f.write(smt)
     to = max(5, timeout_ms // 1000 * 2)
     r2 = _run_cli([CVC5, '--strings-exp', f'--tlimit={to * 1000}'], smt, to)
     if r2 == 'unsat':
